@@ -790,6 +790,8 @@ void sim_fault_add(int op, const char *site, int nth, int count, int err) {
 	fr->op = op; snprintf(fr->site, sizeof(fr->site), "%s", site);
 	fr->nth = nth; fr->count = count; fr->err = err; fr->fired = 0;
 }
+int sim_faults_fired(void);
+int sim_faults_fired(void) { int n = 0; for (int i = 0; i < S.nfaults; i++) n += S.faults[i].fired; return n; }
 int sim_fault_pending_total(void) {
 	int n = 0;
 	for (int i = 0; i < S.nfaults; i++) if (!S.faults[i].fired) n++;
